@@ -14,7 +14,9 @@ import WfModel.Lemmas.Atoms.Tail
   `Lemmas/Atoms/Path.lean`), layout allowed after `[` and before `]`;
 * `tail` (`Lemmas/Atoms/Tail.lean`) nothing (a `Bool` left-hand side), `ws₁ op ws₂ literal` with
   any of the six ordering operators in either spelling and a literal of `Lit`,
-  `ws₁ in ws₂ { … }` with integer items `a` / `a..b`, or `ws₁ contains ws₂ "…"`.
+  `ws₁ in ws₂ { … }` with integer items `a` / `a..b`, byte-string items or IPv4 items
+  `a.b.c.d` / `a..b` / `a/len`, `ws₁ contains ws₂ "…"`, `ws₁ & ws₂ int` / `ws₁ bitwise_and ws₂ int`,
+  or `ws₁ in ws₂ $name`.
 
 `CAtom.txt` is the character string, `CAtom.node` the intended AST node, `CAtom.ok` the decidable
 side conditions. `goodAtom` proves the hypothesis `GoodAtom` of `parse_render_logical` for every
@@ -70,6 +72,22 @@ abbrev CAtom.inSet (name : List Char) (ws₁ ws₂ ws₀ : Input) (items : List 
 abbrev CAtom.containsCmp (name : List Char) (ws₁ ws₂ : Input) (lit : Lit) : CAtom :=
   ⟨name, [], .contains ws₁ ws₂ lit⟩
 
+/-- `name ws₁ in ws₂ { ws₀ items }` with byte-string items -/
+abbrev CAtom.inBytesSet (name : List Char) (ws₁ ws₂ ws₀ : Input) (items : List (Lit × Input)) :
+    CAtom := ⟨name, [], .inBytes ws₁ ws₂ ws₀ items⟩
+
+/-- `name ws₁ in ws₂ { ws₀ items }` with address items -/
+abbrev CAtom.inIpSet (name : List Char) (ws₁ ws₂ ws₀ : Input) (items : List IpItem) : CAtom :=
+  ⟨name, [], .inIps ws₁ ws₂ ws₀ items⟩
+
+/-- `name ws₁ & ws₂ v` / `name ws₁ bitwise_and ws₂ v` -/
+abbrev CAtom.bitAndCmp (name : List Char) (ws₁ : Input) (sym : Bool) (ws₂ : Input) (v : Int)
+    (form : IntForm := .dec) : CAtom := ⟨name, [], .bitAnd ws₁ sym ws₂ form v⟩
+
+/-- `name ws₁ in ws₂ $list` -/
+abbrev CAtom.inListCmp (name : List Char) (ws₁ ws₂ : Input) (ty : Ty) (list : Nat)
+    (listName : List Char) : CAtom := ⟨name, [], .inList ws₁ ws₂ ty list listName⟩
+
 /-- the same atom on an indexed left-hand side: `name path tail` -/
 abbrev CAtom.indexed (a : CAtom) (path : List Ix) : CAtom := { a with path := path }
 
@@ -119,10 +137,12 @@ def CAtom.junctionOk (a : CAtom) : Bool :=
 /-- **side conditions** (decidable): valid name, not exactly `not`; every index suffix is
 well-formed (`Ix.ok`); the tail is (`Tail.ok`: layout, literal / item conditions); the scheme
 has the field, the path is well-typed for its type and ends in the tail's type (`Bool` for a
-bare atom, the literal's type, `Int` for `in {…}`, `Bytes` for `contains`); `junctionOk`. -/
+bare atom, the literal's type, the item type for `in {…}`, `Bytes` for `contains`, `Int` for `&`,
+the named type for `in $name`); `junctionOk`; for `in $name` the scheme has a list registered
+for that type (`Tail.schemeOk`). -/
 def CAtom.ok (s : Scheme) (a : CAtom) : Bool :=
   nameGood a.name && a.path.all Ix.ok && a.tail.ok &&
-    fieldPathTy s a.name (a.path.map Ix.val) a.tail.ty && a.junctionOk
+    fieldPathTy s a.name (a.path.map Ix.val) a.tail.ty && a.junctionOk && a.tail.schemeOk s
 
 /-- the `Atoms` structure `parse_render_logical` is instantiated with -/
 def atoms (s : Scheme) : Atoms CAtom := { txt := CAtom.txt, node := CAtom.node s }
@@ -229,7 +249,7 @@ theorem cmpWithLhs_ord {tight : Bool} (env : PEnv) (i : Nat) {ws₁ ws₂ : Inpu
         (ws₁ ++ ((ordAlias op sym).toList ++ (ws₂ ++ (l.txt ++ rest)))) =
       .ok ({ node := .comparison (.field i []) (.ordering op l.val), ty := .bool }, rest) := by
   have := cmpWithLhs_tail (tight := tight) env (.field i []) rfl (.ord ws₁ op sym ws₂ l)
-    (by simp [Tail.ok, h₁, h₂, hok]) rest hstop
+    (by simp [Tail.ok, h₁, h₂, hok]) rfl rest hstop
   simpa [Tail.txt, Tail.ty, Tail.op, List.append_assoc] using this
 
 /-! ### `GoodAtom` -/
@@ -240,7 +260,7 @@ theorem goodAtom (env : PEnv) (tight : Bool) (a : CAtom) (h : a.ok env.scheme = 
     GoodAtom env (atoms env.scheme) tight a := by
   obtain ⟨name, path, tail⟩ := a
   simp only [CAtom.ok, Bool.and_eq_true] at h
-  obtain ⟨⟨⟨⟨hg, hpath⟩, htail⟩, hf⟩, hj⟩ := h
+  obtain ⟨⟨⟨⟨⟨hg, hpath⟩, htail⟩, hf⟩, hj⟩, hsch⟩ := h
   obtain ⟨hn, hnot⟩ := nameGood_spec hg
   obtain ⟨hget, hty⟩ := fieldPathTy_spec hf
   -- what `junctionOk` says when the path is empty
@@ -265,7 +285,7 @@ theorem goodAtom (env : PEnv) (tight : Bool) (a : CAtom) (h : a.ok env.scheme = 
         unfold comparisonL
         rw [indexExprL_path env _ hn hget hpath hty (hps rest hs)]
         exact cmpWithLhs_tail env (.field (fieldIx env.scheme name) (path.map Ix.val))
-          (mapEachCount_path path) tail htail rest hs
+          (mapEachCount_path path) tail htail hsch rest hs
       noUnary := fun rest hs => by
         rw [eq]
         exact name_noUnary_ns env hn (by rw [hget]; rfl) hnot (hps rest hs).name
